@@ -30,6 +30,12 @@ CHECKS["C19"] = ("stateful property-based testing (proptest): scripted callback 
 CHECKS["C06"] = ("property-based testing (proptest): dense output vs the accepted-step grid and states observed through the events hook; generated interior / outside query points",
          "Generated problems (incl. mildly stiff ones for BDF order changes and Radau rejections), options and query points; the true step grid and states come from one events() call per accepted step, so span coverage, end-point reproduction, continuity across boundaries and error kinds are decided per step of every run.",
          "Tolerances 1e-10(1+|y|) + 8 max|f| ulp(t); 'clearly outside' = 1e-9(1+|t|).", "DESIGN.md §4 C06")
+CHECKS["C08"] = ("two-phase property-based testing (proptest): event roots placed relative to the plain run's step grid; validity predicate over every reported event",
+         "Roots of 1..4 generated event functions are placed mid-step, 1e-13..1e-9 beside a step end, or several in one step; each reported event is checked for bracket membership, agreement with the dense solution, |g| against a Lipschitz-scaled root-finder bound, direction in integration order, ordering and shapes.",
+         "Sampled Lipschitz constant (64 sub-intervals, x2); absolute 2e-12 for the end-point shortcut.", "DESIGN.md §4 C08")
+CHECKS["C09"] = ("two-phase property-based testing (proptest): sign pattern of g at the accepted steps vs reported events (exactly-one / none matching)",
+         "Same two-phase placement; for every function and step the strict sign pattern at the step ends decides whether exactly one, none or any event may be attributed to the step; single-root time events must be found exactly once and located to 4e-12.",
+         "Exact zeros at step ends are skipped (SciPy semantics, as the property allows).", "DESIGN.md §4 C09")
 PENDING = {}
 
 def main():
